@@ -448,7 +448,7 @@ type burstRes struct {
 
 func depthBurst(g int, rs []burstRes) []*NEvent {
 	for k := 0; k < 64; k++ {
-		b := 1 + (63-g*3+64-k)%64
+		b := 1 + ((63-g*3-k)%64+64)%64 // every depth 1..64 once, starting point staggered per goroutine
 		bd := signal.BitDepth(b)
 		r := burstRes{b: b}
 		r.maxS, r.minS, r.maxU = bd.MaxSignedValue(), bd.MinSignedValue(), bd.MaxUnsignedValue()
